@@ -6,10 +6,17 @@ Transcription of `nunavutFloat16Pack` / `nunavutFloat16Unpack`
 `src/nunavut/lang/cpp/support/serialization.j2` are the same statements with `static_cast`s) **on bit patterns**:
 a binary32 value is the `Nat` below `2^32` holding its IEEE-754 encoding, a binary16 value the `Nat` below `2^16`.
 
-The code reinterprets the pattern as a `float`, multiplies by a constant and reinterprets back.  That hardware
-multiplication is *modelled* by `f32mul` (IEEE-754 binary32 product of two finite non-negative operands, default
-rounding mode round-to-nearest-even, gradual underflow, overflow to infinity); the assumption "the target's `*`
-is this function" is validated by the exhaustive correspondence run, not proved.
+Two packers are transcribed: `pack` = the function as shipped (ties round away from zero, defect candidate F14 of
+the cross-target property C03) and `packRneC` = the function after the repair
+`agent_out/CODEC_HARNESS/fix_float16_ties_to_even.diff` (ties to even).  Property C14 holds for both; the harness
+recognises which of the two shapes the tree under check has and ties that one.  `packRne` is the Python target
+(`struct.pack("<e")`), proved equal to `packRneC`.
+
+The code reinterprets the pattern as a `float`, multiplies by (resp. adds) a constant and reinterprets back.  That
+hardware operation is *modelled* by `f32mul` / `f32add` (IEEE-754 binary32 product / sum of two finite
+non-negative operands, default rounding mode round-to-nearest-even, gradual underflow, overflow to infinity); the
+assumption "the target's `*` / `+` is this function" is validated by the correspondence runs (random operand
+pairs against the hardware, and through `pack`/`unpack` on every swept input), not proved.
 
 Core Lean only; only kernel-accelerated `Nat` operations (`+ - * / % >>> <<< &&& ||| ^^^ ble beq`) in the hot
 paths, no `Int`, no `Nat.log2` (measured: `Nat.log2` is not accelerated in the kernel, ≈ 2.5 ms per call).
